@@ -143,6 +143,23 @@ CLAIMED = {
              'arithmetic; meaningfulness of message texts; geometry of caller-supplied unit cells (named, not armed).',
         technique='typestate + interval abstract interpretation over all paths; who-may-touch rule; data-backed coverage facts',
     ),
+    'C04': dict(
+        category='other',
+        text='Memory safety decided on every abstract path of the ~200 libxrl functions: (a) 177 subscripts on fixed-extent '
+             'objects proved inside the extent from interval facts, success constraints of delegated calls (computed '
+             'transitively), loop-carried universally quantified facts, and data facts (e.g. max NShells <= SHELLNUM_C); '
+             '(c) allocation/release typestate over 160+ (allocation, exit) pairs with constructors/destructors discovered '
+             'from the code, field ownership, double-release and use-after-release; ownership sinks consume their argument; '
+             'a flow-sensitive may-leak analysis covers the two functions beyond the path budget; (d) NULL-checked parameter '
+             'families; (e) scanf %s widths; (f) memcpy size = allocation size.',
+        design_ref='DESIGN.md section 2, C04',
+        note='Sound-by-construction static analysis, not machine-checked. A4: untested allocations are assumed to succeed. '
+             'Accesses through the spline pointer tables are bounded by the family invariants decided in C02. Not decided: '
+             'undefined behaviour in general (signed overflow, ctype on negative char), the one-before-begin pointer of the '
+             '1-based spline idiom (accepted idiom), call *sequences* beyond what per-call ownership implies (crystal arrays: '
+             'C14). Known findings: F8 (EdgeEnergy_arr[Z][shell] for Q shells), F12 (scanner error exits leak scratch memory).',
+        technique='interval abstract interpretation for bounds + resource typestate over all paths + may-leak dataflow',
+    ),
 }
 
 NOT_YET = {}
